@@ -91,9 +91,14 @@ class App:
     binding: Dict[str, str]          # operand name -> variable name
     consts: Dict[str, int]           # const operand name -> value
     labels: List[str] = field(default_factory=list)   # label operand names in order
+    cells_cache: Dict[str, int] = field(default_factory=dict, repr=False, compare=False)
 
     def used_cells(self, op: Operand) -> int:
-        return max(0, int(eval(op.length, {'n': self.n, **self.consts})))  # noqa: S307 - spec-author expressions over n/consts only
+        cells = self.cells_cache.get(op.name)
+        if cells is None:
+            cells = max(0, int(eval(op.length, {'n': self.n, **self.consts})))  # noqa: S307 - spec-author expressions over n/consts only
+            self.cells_cache[op.name] = cells
+        return cells
 
 
 class MonitorStop(Exception):
@@ -159,8 +164,11 @@ class Monitor:
     """the model + the checks performed at each SYNC. it is driven by the device below."""
 
     def __init__(self, apps: List[App], variables: List[Var], labels: Dict[str, int], w: int, passes: int,
-                 value_plan: Callable[[int, random.Random], Dict[str, int]], rng: random.Random):
+                 value_plan: Callable[[int, random.Random], Dict[str, int]], rng: random.Random, keep_going: bool = False):
         self.apps, self.variables, self.w, self.passes, self.value_plan, self.rng = apps, variables, w, passes, value_plan, rng
+        self.keep_going = keep_going        # after a violation: record it, re-synchronise the model with memory and go on
+        self.all_violations: List[Dict[str, Any]] = []
+        self.memory_verified = False        # every variable was compared (value and non-data bits) at the last SYNC
         self.vars_by_name = {v.name: v for v in variables}
         self.addr = {v.name: labels[v.label or v.name] for v in variables}
         self.field_rest: Dict[str, int] = {}   # 'field' vars: the other bits of the word, as first seen (must never change)
@@ -254,21 +262,31 @@ class Monitor:
             self.applications += 1
             if self.expected_branch is not None:
                 self.checks += 1
+                failed = False
                 if self.ones != self.expected_branch:
                     self.fail(app, 'branch', f'marker count {self.ones}, documented branch marker {self.expected_branch}')
-                    return False
-                for var in self.variables:
-                    got, pristine = self.read_var(memory, var)
-                    if got != self.state[var.name] or not pristine:
-                        role = self.role_of(app, var.name)
-                        self.fail(app, role, f'{var.name} ({role}) = {got:#x}{"" if pristine else " (non-data bits disturbed)"}, '
-                                             f'documented value {self.state[var.name]:#x}')
-                        return False
-                key = f'{app.spec.macro}:{self.expected_branch}'
-                self.branches_seen[key] = self.branches_seen.get(key, 0) + 1
+                    failed = True
+                else:
+                    for var in self.variables:
+                        got, pristine = self.read_var(memory, var)
+                        if got != self.state[var.name] or not pristine:
+                            role = self.role_of(app, var.name)
+                            self.fail(app, role, f'{var.name} ({role}) = {got:#x}{"" if pristine else " (non-data bits disturbed)"}, '
+                                                 f'documented value {self.state[var.name]:#x}')
+                            failed = True
+                            break
+                if failed:
+                    if not self.keep_going or any(not self.read_var(memory, var)[1] for var in self.variables):
+                        return False  # (non-data bits disturbed: the program cannot be trusted to go on)
+                    for var in self.variables:
+                        self.state[var.name], _ = self.read_var(memory, var)
+                else:
+                    key = f'{app.spec.macro}:{self.expected_branch}'
+                    self.branches_seen[key] = self.branches_seen.get(key, 0) + 1
             else:
                 # unspecified case: re-synchronise the model with reality and go on
                 self.skipped_unspecified += 1
+                self.memory_verified = False
                 for var in self.variables:
                     self.state[var.name], _ = self.read_var(memory, var)
         self.started = True
@@ -280,8 +298,11 @@ class Monitor:
             self.pass_values = self.value_plan(self.pass_index, self.rng)
             for var in self.variables:
                 value = self.pass_values.get(var.name, 0) % var.modulus
+                if var.hidden and self.memory_verified and self.state.get(var.name) == value:
+                    continue  # the last SYNC has just verified that memory holds exactly this (pristine) value
                 self.state[var.name] = value
                 self.poke_var(memory, var, value)
+            self.memory_verified = True
             self.history = []
         app = self.apps[self.next_app % len(self.apps)]
         self.history.append(app.spec.macro)
@@ -296,11 +317,16 @@ class Monitor:
         return 'destination' if any(r in ('rw', 'w') for r in roles) else 'source'
 
     def fail(self, app: App, what: str, detail: str) -> None:
-        self.violation = {
+        record = {
             'macro': app.spec.macro, 'doc': app.spec.doc, 'n': app.n, 'what': what, 'detail': detail,
+            'form': 'n' if any(op.kind == 'n' for op in app.spec.operands) else 'scalar',
             'binding': app.binding, 'consts': app.consts, 'pass_values': {k: hex(v) for k, v in self.pass_values.items()},
             'sequence_so_far': self.history[-12:], 'w': self.w,
         }
+        if self.violation is None:
+            self.violation = record
+        if len(self.all_violations) < 8 and not any((r['macro'], r['what']) == (record['macro'], what) for r in self.all_violations):
+            self.all_violations.append(record)
 
 
 def make_device(monitor: Monitor) -> Any:
